@@ -316,4 +316,39 @@ theorem variant (m : Nat) (chunks : List Nat) (hpos : ∀ k ∈ chunks, 0 < k) (
     obtain ⟨⟨hw, hr, _⟩, rfl⟩ := hs
     simp only [D.mu, hw]; simp; omega
 
+def nAssign (ops : List AOp) : Nat := (ops.filter (· == .assign)).length
+
+/-- without a reset in between, the chunk indices handed out are i, i+1, … in that order -/
+theorem indices_in_order (ord : Bool) (n : Nat) (ops : List AOp) (a : Assign) (i : Nat) (h : ∀ o ∈ ops, o ≠ .reset) :
+    (runOps ord n a i ops).map (·.1) = List.range' i (nAssign ops) := by
+  induction ops generalizing a i with
+  | nil => simp [runOps, nAssign]
+  | cons op ops ih =>
+    have h' : ∀ o ∈ ops, o ≠ .reset := fun o ho => h o (List.mem_cons_of_mem _ ho)
+    cases op with
+    | assign =>
+      simp only [runOps, List.map_cons]
+      rw [ih _ _ h']
+      simp [nAssign, List.range'_succ]
+    | completed w =>
+      simp only [runOps]
+      rw [ih _ _ h']
+      simp [nAssign]
+    | reset => exact absurd rfl (h .reset (List.mem_cons_self ..))
+    | apply =>
+      simp only [runOps]
+      rw [ih _ _ h']
+      simp [nAssign]
+
+/-- what worker `w` finds in its queue during one call with order_tasks: the chunks `w, w+n, w+2n, …`, in that order -/
+theorem queue_of_worker (n : Nat) (ops : List AOp) (w : Nat) (h : ∀ o ∈ ops, o ≠ .reset) :
+    ((runOps true n reset 0 ops).filter (·.2 == w)).map (·.1) = (List.range (nAssign ops)).filter (· % n == w) := by
+  have hrr := assign_round_robin n ops reset 0 rfl
+  have hidx := indices_in_order true n ops reset 0 h
+  rw [List.range_eq_range', ← hidx, List.filter_map]
+  congr 1
+  apply List.filter_congr
+  intro p hp
+  simp [Function.comp, hrr p hp]
+
 end Mpire.Proofs.Dispatch
